@@ -199,8 +199,8 @@ impl std::ops::Sub for ApproxFloat {
 
     fn sub(self, other: Self) -> Self {
         Self {
-            low: next_float_down(self.low - other.low),
-            high: next_float_up(self.high - other.high),
+            low: next_float_down(self.low - other.high),
+            high: next_float_up(self.high - other.low),
         }
     }
 }
@@ -327,8 +327,10 @@ impl std::ops::AddAssign<Float> for ApproxFloat {
 
 impl std::ops::SubAssign for ApproxFloat {
     fn sub_assign(&mut self, other: Self) {
-        self.low = next_float_down(self.low - other.low);
-        self.high = next_float_up(self.high - other.high);
+        let low = next_float_down(self.low - other.high);
+        let high = next_float_up(self.high - other.low);
+        self.low = low;
+        self.high = high;
     }
 }
 
